@@ -128,6 +128,7 @@ class Case:
         self.profile: Dict[str, Any] = {}
         self.services: Dict[str, Any] = {}
         self.delays: Dict[str, Any] = {}
+        self.invokes: Dict[str, Any] = {}
 
     def handlers_of(self, node: Node):
         return [t for t in self.trans if t.source is node]
@@ -144,7 +145,7 @@ BASE = dict(
     p_root_on=0.3, p_root_final=0.05, p_target_root=0.02, p_targetless=0.12,
     p_self=0.12, p_hist_target=0.0, p_forbidden=0.0, final_out=False,
     p_parallel_root=0.15, p_after=0.0, max_states=40, p_final_trans=0.0,
-    wild=False, p_internal_false=0.0,
+    wild=False, p_internal_false=0.0, p_invoke=0.0, p_invoke_fail=0.3, ondone_forward=True,
 )
 
 PROFILES: Dict[str, Dict[str, Any]] = {
@@ -334,7 +335,7 @@ def gen_case(rng: random.Random, P: Dict[str, Any]) -> Case:
             return "gR"
         return rng.choice(case.atoms[:natoms])
 
-    def mk(source, event, kind, pos, *, forward_only=False, delay=None):
+    def mk(source, event, kind, pos, *, forward_only=False, delay=None, targetless_ok=False):
         target, reenter = pick_target(source)
         if forward_only:
             # eventless transitions must strictly move forward in document order
@@ -346,8 +347,11 @@ def gen_case(rng: random.Random, P: Dict[str, Any]) -> Case:
             fwd = [n for n in states if n.index > last and n.kind != "final"
                    and not source.is_desc_of(n) and _dca(source, n).kind != "parallel"]
             if not fwd:
-                return None
-            target, reenter = rng.choice(fwd), False
+                if not targetless_ok:
+                    return None
+                target, reenter = None, False
+            else:
+                target, reenter = rng.choice(fwd), False
         spelling = spell(rng, source, target) if target is not None else None
         t = Trans(tid[0], source, event, kind, target, spelling, pick_guard(), reenter,
                   pos, delay=delay)
@@ -373,6 +377,19 @@ def gen_case(rng: random.Random, P: Dict[str, Any]) -> Case:
             t = mk(s, "", "always", 0, forward_only=True)
             if t is not None and t.guard is None and rng.random() < 0.5:
                 t.guard = rng.choice(case.atoms[:natoms])
+        if s.kind != "final" and s is not tree.root and rng.random() < P["p_invoke"]:
+            iid = f"inv_{s.key}"
+            sname = f"svc_{s.key}"
+            fails = rng.random() < P["p_invoke_fail"]
+            case.services[sname] = {"mode": "raise" if fails else "ret", "value": len(case.services)}
+            inv = {"src": sname, "id": iid, "input": {"who": s.key}}
+            case.invokes[s.id] = inv
+            td = mk(s, f"done.invoke.{iid}", "invDone", 0, forward_only=True, targetless_ok=True)
+            td.guard = None
+            if fails or rng.random() < 0.5:
+                te = mk(s, f"error.platform.{iid}", "invError", 0, forward_only=True,
+                        targetless_ok=True)
+                te.guard = None
         if s.kind != "final" and rng.random() < P["p_after"]:
             for pos, delay in enumerate(rng.sample(P.get("after_delays", [100000, 200000, 300000]),
                                                    rng.randint(1, 2))):
@@ -381,9 +398,8 @@ def gen_case(rng: random.Random, P: Dict[str, Any]) -> Case:
                 and rng.random() < P["p_ondone"]:
             has_final = any(d.kind == "final" for d in s.subtree())
             if has_final:
-                t = mk(s, f"done.state.{s.id}", "onDone", 0)
-                if t.target is not None and t.target.is_desc_of(s):
-                    pass
+                t = mk(s, f"done.state.{s.id}", "onDone", 0,
+                       forward_only=P.get("ondone_forward", True), targetless_ok=True)
                 t.guard = None
 
     # effects: extra builtin actions sprinkled on transitions / entry / exit
@@ -453,7 +469,7 @@ def build_plan(case: Case, fx: Optional[Dict[str, List[Any]]] = None) -> Dict[st
         if n is tree.root:
             d["id"] = MID
             d["context"] = dict(case.context)
-            d["maxIterations"] = P_MAXIT
+            d["maxIterations"] = case.profile.get("maxit", P_MAXIT)
         elif n.custom_id:
             d["id"] = n.custom_id
         if n.kind == "history":
@@ -487,6 +503,15 @@ def build_plan(case: Case, fx: Optional[Dict[str, List[Any]]] = None) -> Dict[st
                 d["onDone"] = trans_cfg(t)
             elif t.kind == "after":
                 after.setdefault(str(t.delay), []).append(trans_cfg(t))
+        inv = case.invokes.get(n.id)
+        if inv is not None:
+            iv = dict(inv)
+            for t in case.handlers_of(n):
+                if t.kind == "invDone":
+                    iv["onDone"] = trans_cfg(t)
+                elif t.kind == "invError":
+                    iv["onError"] = trans_cfg(t)
+            d["invoke"] = iv
         if on:
             d["on"] = on
         if always:
